@@ -162,8 +162,8 @@ def unit_returner(U):
     it = Interp()
     it.contracts[B.bins] = bins_contract
     IM.install_json(it)
-    for start_null in (False, True):
-        def run(ctx, start_null=start_null):
+    for start_null, sort_values in ((False, False), (True, False), (False, True)):
+        def run(ctx, start_null=start_null, sort_values=sort_values):
             attrs = object.__new__(Attributes)
             attrs._d = {"ID": [IM.sval("r.ID")[0]], "Note": [IM.sval("r.Note")[0], IM.sval("r.Note2")[0]]}
             extra = [IM.sval("r.x0")[0]]
@@ -173,13 +173,14 @@ def unit_returner(U):
             db = blank_db()
             db.dialect = {"fmt": "gff3", "marker": 1}
             db.keep_order = True
-            ctx.stash.update(row=row, attrs=attrs, extra=extra, db=db)
+            db.sort_attribute_values = sort_values
+            ctx.stash.update(row=row, attrs=attrs, extra=extra, db=db, orig={k: list(v) for k, v in attrs._d.items()})
             return it.call(I.FeatureDB._feature_returner, [db], dict((k, row[k]) for k in row.keys()))
 
-        def replay(m, start_null=start_null):
+        def replay(m, start_null=start_null, sort_values=sort_values):
             f = F.Feature(seqid="c", source="s", featuretype="t", start="." if start_null else 3, end="." if start_null else 9, score="1", strand="-", frame="2",
-                          attributes={"ID": ["a"], "Note": ["x y", "z"]}, extra=["e1", ""])
-            db = gffutils.create_db([f], ":memory:", keep_order=True)
+                          attributes={"ID": ["a"], "Note": ["x y", "z", "m"]}, extra=["e1", ""])
+            db = gffutils.create_db([f], ":memory:", keep_order=True, sort_attribute_values=sort_values)
             g = list(db.all_features())[0]
             bad = any(getattr(f, k) != getattr(g, k) for k in constants._gffkeys[:-1]) or dict(g.attributes) != dict(f.attributes) or g.extra != f.extra or g.dialect != db.dialect or not g.keep_order
             return {"expected": str(f), "observed": str(g), "violates": bad}
@@ -194,13 +195,13 @@ def unit_returner(U):
                     conds.append(z3.BoolVal(g.start is None and g.end is None))
                 else:
                     conds.append(z3.And(g.start.e == row["start"].e, g.end.e == row["end"].e) if isinstance(g.start, SInt) and isinstance(g.end, SInt) else z3.BoolVal(False))
-                conds.append(z3.BoolVal(isinstance(g.attributes, Attributes) and list(g.attributes._d.keys()) == ["ID", "Note"] and all(a is b for k in g.attributes._d for a, b in zip(g.attributes._d[k], st["attrs"]._d[k]))
+                conds.append(z3.BoolVal(isinstance(g.attributes, Attributes) and list(g.attributes._d.keys()) == ["ID", "Note"] and all(a is b for k in g.attributes._d for a, b in zip(g.attributes._d[k], st["orig"][k]))
                                         and len(g.attributes._d["Note"]) == 2))
                 conds.append(z3.BoolVal(g.extra is st["extra"] or (isinstance(g.extra, list) and len(g.extra) == 1 and g.extra[0] is st["extra"][0])))
                 conds.append(z3.BoolVal(g.dialect is st["db"].dialect and g.keep_order is True and g.file_order is row["file_order"]))
                 goal = z3.And(*conds)
-            U.prove("C01.returner[%s]#p%d" % ("null-coords" if start_null else "coords", p.index),
-                    "row -> Feature: same eight columns (NULL coordinates -> None), attributes/extra decoded from their JSON text with keys and values in order, the database's dialect and keep_order attached", p.pc, goal, {}, replay=replay)
+            U.prove("C01.returner[%s%s]#p%d" % ("null-coords" if start_null else "coords", ",sort_attribute_values" if sort_values else "", p.index),
+                    "row -> Feature: same eight columns (NULL coordinates -> None), attributes/extra decoded from their JSON text with keys and values in order (also under sort_attribute_values, which affects printing only), the database's dialect and keep_order attached", p.pc, goal, {}, replay=replay)
 
 
 def unit_unicode(U):
